@@ -57,6 +57,19 @@ def scenarios(draw):
         cand = [g for g in sc["genes"] if not g["id"].endswith("b") and not g.get("paralog_of")]
         if cand:
             S.add_mirror_strand_clone(src, sc, src.choice(cand))
+    # reads with a second, worse alignment inside an intron of some gene (a secondary record with MAPQ >= 5 - below
+    # that alignments matching no isoform are dropped): the alignment that is kept may match several isoforms
+    introns = [(g["chr"], t["exons"][i][1] + 1, t["exons"][i + 1][0] - 1) for g, t in S.transcripts_of(sc)
+               for i in range(len(t["exons"]) - 1) if t["exons"][i + 1][0] - t["exons"][i][1] > 90]
+    genic = [r for r in sc["reads"] if r.get("c") is not None and not r["f"] & 256]
+    for _ in range(src.int(0, 4)):
+        if not genic or not introns:
+            break
+        r = src.choice(genic)
+        c, a, b = src.choice(introns)
+        x = src.int(a + 5, b - 65)
+        sc["reads"].append(R.make_read(r["n"], c, [[x, min(b - 5, x + src.int(55, 200))]], flag=256 | (r["f"] & 16),
+                                       mapq=src.choice([10, 30])))
     grouped = src.bool(0.7)
     if grouped:
         for r in sc["reads"]:
